@@ -121,9 +121,16 @@ func parseDirectives(s string) map[string]string {
 	for key, value := range directivesSeq2(s) {
 		// A directive given twice: the later occurrence is used, except that an
 		// unqualified no-cache (the stricter form) is never relaxed by a
-		// qualified one: 'no-cache, no-cache="f"' still demands validation.
-		if prev, dup := m[key]; dup && key == "no-cache" && ParseQuotedString(prev) == "" {
-			continue
+		// qualified one: 'no-cache, no-cache="f"' still demands validation,
+		// and two qualified ones name the fields of both lists.
+		if prev, dup := m[key]; dup && key == "no-cache" {
+			prevFields := ParseQuotedString(prev)
+			if prevFields == "" {
+				continue
+			}
+			if fields := ParseQuotedString(value); fields != "" {
+				value = quoteString(prevFields + "," + fields)
+			}
 		}
 		m[key] = value
 	}
